@@ -203,7 +203,7 @@ CROSS = {
             'projection as subclass instances, copies, pickle round trips and duck-typed objects, in both directions.'),
     'C14': (' Also: 800 lines whose second point lies 2-120 m inside the hemisphere next to the equator.'),
     'C09': (' Every result is overwritten at its top level right after the call (a result belongs to the caller); the canonical '
-            'form of an array includes its writeable flag.' Also: shared caller-owned objects (histories of depth 3 and all pairs of calls on one object under the scheduler), '
+            'form of an array includes its writeable flag. Also: shared caller-owned objects (histories of depth 3 and all pairs of calls on one object under the scheduler), '
             'rejected calls as history elements, hash twins (-1 / -2), statements on constants (+=), and the soak sub-check '
             '(1500 / 6000 distinct argument tuples through each of 20 functions and back in reverse order, anchored in a pristine '
             'interpreter).'),
